@@ -187,15 +187,17 @@ def _instantiate(foralls, ints, reals, done, out, budget, pos=None, cache=None):
                 pools.append([t for _, t in icands])
                 continue
             exact = set(x for x in pat if not x[0].startswith('~'))
-            loose = set((f[1:], a) for f, a in pat if f.startswith('~'))
+            if not exact:
+                # the variable only occurs inside compound index terms (f(c + k)): no cheap matching,
+                # use every integer term (constants first)
+                pools.append(sorted([t for _, t in icands], key=lambda t: (t.num_args() > 0, t.sexpr()))[:40])
+                continue
             sel = []
             for k, t in icands:
                 pk = pos.get(k)
                 if pk is None:
                     continue
                 if pk & exact:
-                    sel.append(t)
-                elif not exact and pk & loose:
                     sel.append(t)
             pools.append(sel)
         total = 1
@@ -341,9 +343,13 @@ def extremum_axioms(store, terms):
         k = a.const.get_id()
         if k not in store.ext:
             w = fresh_int('wit')
-            g = z3.Implies(a.n > 0, z3.And(w >= 0, w < a.n, a.const == a.at(w)))
-            op = (lambda x, y: x <= y) if a.which == 'min' else (lambda x, y: x >= y)
-            fa = Forall([Sc(a.n)], (lambda a, op: lambda kk: Sc(op(a.const, a.at(kk.t))))(a, op), name=a.which)
+            if a.which == 'any':
+                g = z3.Implies(a.const, z3.And(w >= 0, w < a.n, a.at(w)))
+                fa = Forall([Sc(a.n)], (lambda a: lambda kk: Sc(z3.Implies(z3.Not(a.const), z3.Not(a.at(kk.t)))))(a), name='any')
+            else:
+                g = z3.Implies(a.n > 0, z3.And(w >= 0, w < a.n, a.const == a.at(w)))
+                op = (lambda x, y: x <= y) if a.which == 'min' else (lambda x, y: x >= y)
+                fa = Forall([Sc(a.n)], (lambda a, op: lambda kk: Sc(op(a.const, a.at(kk.t))))(a, op), name=a.which)
             store.ext[k] = (g, fa)
         g, fa = store.ext[k]
         ground.append(g)
